@@ -79,6 +79,7 @@ pub fn run(k: &str, c: &Value) -> Value {
             let hull = convex_hull_2d(&pts);
             let poly = ConvexPolygon::from_convex_hull(&pts);
             let far = poly.as_ref().map(|p| { let (i, j) = farthest_pair_indices(p); json!([hp2(&p.points()[i]), hp2(&p.points()[j])]) });
+            let far_idx = poly.as_ref().map(|p| { let (i, j) = farthest_pair_indices(p); json!({"i": i, "j": j, "poly": p.points().iter().map(hp2).collect::<Vec<_>>()}) });
             let dir = match point_order_direction(&pts) { AngleDir::Ccw => "ccw", AngleDir::Cw => "cw" };
             let pdir = if c["pivot_ccw"].as_bool().unwrap() { AngleDir::Ccw } else { AngleDir::Cw };
             let bp = match std::panic::catch_unwind(std::panic::AssertUnwindSafe(|| ball_pivot_with_centers_2d(&pts, BallPivotStart::StartOnConvex, BallPivotEnd::EndOnRepeat, pdir, fx(&c["radius"])))) {
@@ -86,7 +87,7 @@ pub fn run(k: &str, c: &Value) -> Value {
                 Ok(Err(_)) => json!({"err": true}),
                 Err(_) => json!({"panic": true}),
             };
-            json!({"hull": hull, "far": far, "dir": dir, "pivot": bp})
+            json!({"hull": hull, "far": far, "far_idx": far_idx, "dir": dir, "pivot": bp})
         }
         _ => json!({"unknown": k}),
     }
